@@ -29,7 +29,12 @@ def main(argv):
         mod = importlib.import_module('corr.' + prop.lower())
         mods = getattr(mod, 'PROPS_MODULES', ['RTV.Props.' + prop])
         optional = set(getattr(mod, 'OPTIONAL_THEOREMS', []))
-        thms, _suspects, _ = common.audit(mods)
+        try:
+            thms, _suspects, _ = common.audit(mods)
+        except common.InfraError as e:
+            print('%s: NOT written (the modules are not all built: harness/lk build %s): %s' % (prop, ' '.join(mods), str(e)[-300:]))
+            rc = 2
+            continue
         names = sorted(n for n in thms if n.split(':')[0] in mods and not n.split(':', 1)[1].startswith('_private.')
                        and n not in optional and n.split(':', 1)[1] not in optional and n.split('.')[-1] not in optional)
         old = common.load_required(prop) or []
